@@ -608,6 +608,8 @@ struct Gen<'a> {
     /// the option object built last uses the cosine metric: empty (all-zero) feature vectors are outside its domain
     /// (cosine similarity of a zero vector is undefined), so none are generated for trackers built from it
     cosine: bool,
+    /// every box of the detection list generated last has confidence 1
+    last_conf1: bool,
 }
 impl<'a> Gen<'a> {
     fn name(&mut self, p: &str) -> String {
@@ -932,6 +934,7 @@ impl<'a> Gen<'a> {
     }
     fn dets(&mut self, objs: &mut Vec<(f64, f64, Vec<f32>)>, visual: bool) -> Value {
         let mut v = vec![];
+        self.last_conf1 = true;
         for (k, o) in objs.iter_mut().enumerate() {
             o.0 += 3.0;
             o.1 += 1.0;
@@ -943,6 +946,7 @@ impl<'a> Gen<'a> {
             let (xx, yy, asp, h) = (json!(((x + self.rng.uniform(-0.5, 0.5)) as f32) as f64), json!(((y + self.rng.uniform(-0.5, 0.5)) as f32) as f64), json!(0.5 + 0.125 * (k % 4) as f64), json!(40.0 + k as f64));
             if self.rng.chance(0.2) {
                 let c = self.fl(0.3, 1.0);
+                self.last_conf1 = false;
                 push!(self, json!(["u_new_conf", b, xx, yy, null, asp, h, c]));
             } else {
                 push!(self, json!(["u_new", b, xx, yy, null, asp, h]));
@@ -1042,9 +1046,11 @@ impl<'a> Gen<'a> {
                 _ => {
                     if batch {
                         let mut b = vec![];
+                        let mut all_conf1 = true;
                         for sc in 0..nscenes {
                             if self.rng.chance(0.8) {
                                 let d = self.dets(&mut worlds[sc], visual);
+                                all_conf1 &= self.last_conf1;
                                 if !d.as_array().unwrap().is_empty() {
                                     b.push(json!([sc, d]));
                                 }
@@ -1052,8 +1058,10 @@ impl<'a> Gen<'a> {
                         }
                         if !b.is_empty() {
                             push!(self, json!(["predict_batch", null, t, b]));
-                            // a request object is a value: submitting it again tracks the same boxes again
-                            if !visual && self.rng.chance(0.15) {
+                            // a request object is a value: submitting it again tracks the same boxes again. (Only with full
+                            // confidences: a low-confidence box may fail to continue its own track, and the duplicate track it
+                            // starts at the same place makes the next frame an exact tie.)
+                            if !visual && all_conf1 && self.rng.chance(0.2) {
                                 push!(self, json!(["predict_batch_again", null, t, b]));
                             }
                         }
@@ -1075,7 +1083,7 @@ impl<'a> Gen<'a> {
 }
 
 fn gen_script(rng: &mut Rng) -> Vec<Value> {
-    let mut g = Gen { rng, steps: vec![], n: 0, cosine: false };
+    let mut g = Gen { rng, steps: vec![], n: 0, cosine: false, last_conf1: true };
     let mut parts: Vec<u8> = vec![0, 1, 2, 3, 3];
     g.rng.shuffle(&mut parts);
     let k = 2 + g.rng.usize(3);
